@@ -193,7 +193,7 @@ func (ex *Exec) interfere(st *State, key string) {
 		if !hit {
 			continue
 		}
-		ex.note("A-rely: between the calls of " + funcShort(fr.fn) + " other goroutines may run " + strings.Join(in.Writers, ", ") + "; assumed afterwards: " + in.Assume.Src)
+		ex.note("A-rely: between the calls of " + funcShort(fr.fn) + " other goroutines may run " + strings.Join(in.Writers, ", ") + ", each atomically with respect to these calls; the condition assumed afterwards (" + in.Assume.Src + ") is proved as a guarantee of each of these writers (obligations 'guarantee')")
 		before := st.clone()
 		ws := map[string]*Sort{}
 		for _, w := range in.Writers {
@@ -227,6 +227,9 @@ func (ex *Exec) interfere(st *State, key string) {
 			env.old = before
 			ex.bindOwnParams(env, fr)
 			st.assume(ex.evalWith(env, in.Assume))
+			if in.Observe != nil {
+				st.assume(ex.evalWith(env, in.Observe))
+			}
 		}
 	}
 }
